@@ -51,7 +51,10 @@ def expected : List Site := [
   ⟨"pkg/bpv7/bundle.go", "Bundle.MarshalJSON", "make", "len(b.CanonicalBlocks)", "[]json.Marshaler", .lenMem, "", "", none, 0, false⟩,
   ⟨"pkg/bpv7/canonical_block.go", "CanonicalBlock.UnmarshalCbor", "call", "cboring.WriteArrayLength(blockLen)", "cboring.WriteArrayLength", .wire, "uint64", "blockLen == 6", some 6, 0, false⟩,
   ⟨"pkg/bpv7/canonical_block.go", "CanonicalBlock.UnmarshalCbor", "call", "BlockControlFlags(bcf)", "BlockControlFlags", .wire, "", "", none, 0, false⟩,
+  ⟨"pkg/bpv7/canonical_block.go", "CanonicalBlock.UnmarshalCbor", "call", "emptyCRC(CRCType(crcT))", "emptyCRC", .wire, "", "", none, 0, false⟩,
   ⟨"pkg/bpv7/canonical_block.go", "CanonicalBlock.UnmarshalCbor", "call", "CRCType(crcT)", "CRCType", .wire, "", "", none, 0, false⟩,
+  ⟨"pkg/bpv7/canonical_block.go", "CanonicalBlock.UnmarshalCbor", "call", "CRCType(crcT)", "CRCType", .wire, "", "", none, 0, false⟩,
+  ⟨"pkg/bpv7/canonical_block.go", "CanonicalBlock.UnmarshalCbor", "call", "CRCType(crcT)", "CRCType", .wire, "", "!(hasCrc != (CRCType(crcT) != CRCNo))", none, 0, false⟩,
   ⟨"pkg/bpv7/canonical_block.go", "CanonicalBlock.UnmarshalCbor", "call", "GetExtensionBlockManager().ReadBlock(blockType)", "GetExtensionBlockManager().ReadBlock", .wire, "uint64", "", none, 0, false⟩,
   ⟨"pkg/bpv7/canonical_block.go", "CanonicalBlock.UnmarshalCbor", "readstring", "cboring.ReadByteString", "", .wire, "", "", none, 0, false⟩,
   ⟨"pkg/bpv7/endpoint_dtn.go", "NewDtnEndpoint", "slice", "uri[len(dtnEndpointSchemeName)+1:] @ len(dtnEndpointSchemeName) + 1", "", .lenMem, "", "!strings.HasPrefix(uri, dtnEndpointSchemeName+\":\") => return", none, 0, false⟩,
@@ -67,7 +70,11 @@ def expected : List Site := [
   ⟨"pkg/bpv7/extension_block_prophet.go", "ProphetBlock.UnmarshalCbor", "loop", "lenData", "", .wire, "uint64", "", none, 0, true⟩,
   ⟨"pkg/bpv7/extension_block_signature.go", "SignatureBlock.UnmarshalCbor", "readstring", "cboring.ReadByteString", "", .wire, "", "", none, 0, false⟩,
   ⟨"pkg/bpv7/primary_block.go", "PrimaryBlock.UnmarshalCbor", "call", "BundleControlFlags(bcf)", "BundleControlFlags", .wire, "", "", none, 0, false⟩,
+  ⟨"pkg/bpv7/primary_block.go", "PrimaryBlock.UnmarshalCbor", "call", "BundleControlFlags(bcf)", "BundleControlFlags", .wire, "", "", none, 0, false⟩,
+  ⟨"pkg/bpv7/primary_block.go", "PrimaryBlock.UnmarshalCbor", "call", "emptyCRC(CRCType(crcT))", "emptyCRC", .wire, "", "", none, 0, false⟩,
   ⟨"pkg/bpv7/primary_block.go", "PrimaryBlock.UnmarshalCbor", "call", "CRCType(crcT)", "CRCType", .wire, "", "", none, 0, false⟩,
+  ⟨"pkg/bpv7/primary_block.go", "PrimaryBlock.UnmarshalCbor", "call", "CRCType(crcT)", "CRCType", .wire, "", "", none, 0, false⟩,
+  ⟨"pkg/bpv7/primary_block.go", "PrimaryBlock.UnmarshalCbor", "call", "CRCType(crcT)", "CRCType", .wire, "", "!(hasCrc != (CRCType(crcT) != CRCNo))", none, 0, false⟩,
   ⟨"pkg/bpv7/primary_block.go", "PrimaryBlock.UnmarshalCbor", "readstring", "cboring.ReadByteString", "", .wire, "", "", none, 0, false⟩,
   ⟨"pkg/cla/bbc/connector.go", "NewConnector", "makechan", "64", "chan Fragment", .const, "", "", none, 0, false⟩,
   ⟨"pkg/cla/bbc/connector.go", "NewConnector", "makechan", "64", "chan byte", .const, "", "", none, 0, false⟩,
@@ -121,7 +128,9 @@ row of the table and needs a decision here. -/
 def allowedCallees : List String :=
   ["DtnTime", "StatusReportReason", "BlockControlFlags", "BundleControlFlags", "CRCType", "BundleAgeBlock",
    "cla.CLAType", "arm.data.Load", "b.ExtensionBlock", "GetExtensionBlockManager().ReadBlock", "ebm.createBlock",
-   "cboring.WriteArrayLength", "discardBytes", "newPlainOutgoingTransmission", "NewOutgoingTransfer"]
+   "cboring.WriteArrayLength", "discardBytes", "newPlainOutgoingTransmission", "NewOutgoingTransfer",
+   -- `emptyCRC(t)` returns a slice of constant length 0, 2 or 4 for the three known CRC types and an error otherwise
+   "emptyCRC"]
 
 /-- Decidable core of `Bounded`. -/
 def boundedB (s : Site) : Bool :=
